@@ -53,3 +53,17 @@ Theorem C07_errors :
     end.
 Proof. intros; apply batch_first_error. Qed.
 Print Assumptions C07_errors.
+
+(* Two members whose residuals cancel (R and -R, e.g. one proof with its unabsorbed final scalar shifted by +d and
+   by -d), all other members valid: the batch accepts exactly when the two positions carry EQUAL weights.  With
+   independently drawn weights that is one value of the second weight; any structure in the weights (a constant,
+   a shared table entry, a repeated power) shows up as an accepted pair — the position-pair sweep of K10. *)
+Theorem C07_cancelling_pair_accepted_iff_equal_weights :
+  forall (K : FieldOps) (FL : FieldLaws K) (MO : ModOps K) (ML : ModLaws MO) (B Bb : MO) (Gs Hs : list MO)
+         (l : list (verifier_out K MO * r1cs_proof K MO)) (alphas : list K) (i j : nat) (R : MO) vi vj,
+    i <> j -> nth_error l i = Some vi -> nth_error l j = Some vj -> length alphas = length l -> R <> m0 ->
+    mega_of B Bb Gs Hs vi = R -> mega_of B Bb Gs Hs vj = mopp R ->
+    (forall k vp, nth_error l k = Some vp -> k <> i -> k <> j -> mega_of B Bb Gs Hs vp = m0) ->
+    (weighted_sum B Bb Gs Hs l alphas = m0 <-> nth i alphas f0 = nth j alphas f0).
+Proof. intros; eapply cancelling_pair_accepted_iff_equal_weights; eassumption. Qed.
+Print Assumptions C07_cancelling_pair_accepted_iff_equal_weights.
